@@ -292,6 +292,23 @@ def c06_f(ctx: Ctx):
         out.append(ctx.inc(R, f, f.node, "no nested reduce_results"))
     else:
         tests = [n for n in body_nodes(red) if isinstance(n, ast.If)]
+        par0 = red.params[0] if red.params else "match"
+        cex = [n for n in body_nodes(red) if isinstance(n, ast.Assign) and isinstance(n.value, ast.IfExp) and (canon(n.value.body) == par0 or canon(n.value.orelse) == par0)]
+        if not tests and cex:
+            from ..cfg import cond_atoms
+            for a in cex:
+                acc = a.targets[0].id if isinstance(a.targets[0], ast.Name) else "?"
+                pol = canon(a.value.body) == par0
+                atoms = set(cond_atoms(a.value.test, pol))
+                if (f"{acc} is None", True) in atoms and not any(t.replace(" ", "") == acc for (t, _p) in atoms):
+                    out.append(ctx.ok(R, red, a, f"the first match is recognised by `{acc} is None`"))
+                elif any((t.replace(" ", "") == acc and not p2) or (t.replace(" ", "") in (f"len({acc})==0",) and p2) for (t, p2) in atoms):
+                    out.append(ctx.viol(R, red, a, f"the running result is replaced whenever it is empty or unset (`{canon(a.value)[:60]}`): an empty intermediate result (e.g. from $not or an "
+                                        "empty $or) is overwritten by the next sibling condition instead of absorbing it"))
+                else:
+                    out.append(ctx.inc(R, red, a, f"accumulator test not recognised: {sorted(atoms)}"))
+        elif not tests:
+            out.append(ctx.inc(R, red, red.node, "reduce_results has no recognisable first-match test"))
         if tests:
             # which assignment *replaces* the running result by the new match (value is the parameter), and under which facts?
             par = red.params[0] if red.params else "match"
@@ -373,6 +390,11 @@ def c06_g(ctx: Ctx):
                 vp = fe.params[-1]
                 b = common.pmatch("I.get(A, D)", d) or common.pmatch("I.get(A)", d)
                 a = canon(b["A"]).replace(" ", "") if b else ""
+                if b and any(isinstance(x, ast.Assign) and any(isinstance(t, ast.Name) and t.id == vp for t in x.targets) for x in body_nodes(fe)):
+                    # the filter value is re-bound inside the function: look through the re-binding that reaches this look-up
+                    rd = [x for x in common.reaching_defs(ctx, fe, vp, r) if isinstance(x, ast.AST)]
+                    if rd and any(canon(x).replace(" ", "") in (f"float({vp})", f"_float({vp})") for x in rd) and a.startswith("int("):
+                        a = "int(float(" + vp + "))"
                 if a == f"_float({vp})" or a == f"float({vp})":
                     parts.add("float")
                 if a == f"int({vp})":
@@ -431,7 +453,26 @@ def c06_g(ctx: Ctx):
     hd = ctx.prog.classes.get("signac._utility:_hashable_dict")
     hh = hd.methods.get("__hash__") if hd is not None else None
     kh = "signac._utility:_hashable_dict|hash-eq"
-    if hh is None:
+    th0 = ctx.fn("signac._utility:_to_hashable")
+    maprets = []
+    for r in [x for x in body_nodes(th0) if isinstance(x, ast.Return) and x.value is not None]:
+        facts = common.facts_at(ctx, th0, r, "n")
+        if any(pol and ("dict" in t or "Mapping" in t) for (t, pol) in facts):
+            maprets.append(r)
+    km = "signac._utility:_to_hashable|mapping-stays-mapping"
+    for r in maprets:
+        v = r.value
+        cq = ctx.prog.resolve_class_name(th0.module, dotted(v.func)) if isinstance(v, ast.Call) and dotted(v.func) else None
+        if cq and any(b.split(":")[-1] in ("dict", "Mapping", "OrderedDict") or "dict" in b for b in ctx.prog.classes[cq].bases):
+            out.append(ctx.ok(R, th0, r, "a mapping inside a list value stays a (hashable) mapping", construct=km))
+        elif isinstance(v, ast.Call) and isinstance(v.func, ast.Name) and v.func.id in ("tuple", "frozenset", "sorted", "str", "repr"):
+            out.append(ctx.viol(R, th0, r, f"a mapping inside a list value is converted to {canon(v)[:50]}: it is no longer a mapping, so detect_schema / diff_jobs report list-of-mapping values as "
+                                "tuples of pairs (the diff no longer reconstructs the state point) and [{'a': 1}] collides with [[['a', 1]]]", construct=km))
+        else:
+            out.append(ctx.inc(R, th0, r, f"mapping branch of _to_hashable returns {canon(v)[:50]}", construct=km))
+    if hh is None and any(x.status == "VIOLATION" and x.construct == km for x in out):
+        pass
+    elif hh is None:
         out.append(ctx.inc(R, None, None, "_hashable_dict.__hash__ not found", construct=kh))
     else:
         rets = [r for r in body_nodes(hh) if isinstance(r, ast.Return) and r.value is not None]
